@@ -33,6 +33,7 @@ type pipeConstsT struct {
 	Thresh    int  `json:"thresh"`  // largest message length that takes the sync path
 	SyncMax   int  `json:"syncmax"` // index buffers the densest message of that length needs
 	FlushAt   int  `json:"flush_at"`
+	BufSize   int  `json:"buf_size"`
 	DenseHang bool `json:"dense_hang"`
 }
 
@@ -72,7 +73,7 @@ func liveConsts() pipeConstsT {
 		return *constsCache
 	}
 	c := pipeConstsT{Slots: simdjson.VerifRingSlots()}
-	c.FlushAt, _ = simdjson.VerifIndexBufferSize()
+	c.FlushAt, c.BufSize = simdjson.VerifIndexBufferSize()
 	lo, hi := 2, 1<<22 // lo sync, hi async
 	if a, _, _, _ := pathOf(hi, false); !a {
 		c.Thresh = hi
